@@ -131,11 +131,6 @@ theorem lastAssign_none' (as : List ((Int × Int) × (Int × Int) × Val × Val)
 
 /-! ### `c[k::4]` on the fields of a multi-line card -/
 
-theorem chunks_eq {α : Type} (k : Nat) (l : List α) :
-    chunks k l = if k = 0 ∨ l.length ≤ k then (if l.isEmpty then [] else [l]) else l.take k :: chunks k (l.drop k) := by
-  rw [chunks]
-  by_cases h : k = 0 ∨ l.length ≤ k <;> simp [h]
-
 theorem every4_short {α : Type} (k : Nat) (l : List α) (h : l.length ≤ k) : every4 k l = [] := by
   unfold every4
   rw [List.drop_eq_nil_of_le h, chunks_nil]; rfl
